@@ -19,10 +19,10 @@ SCOPE = {
  'C06': 'Proved: pass bound, honest stop (≤ (1+rel)·tol with the live rel/operator/defaults), contraction of pycel\'s depth-first pass for any linear system with ‖A‖∞ ≤ q, the fixed-point bound and their join (result within q/(1−q)·(1+rel)·tol), agreement with plain evaluation on acyclic workbooks along every history. Formulas are reads + combiner; matching that to compiled read order rests on the correspondence.',
  'C07': 'PARTIAL by nature. Proved for the bookkeeping model: frame, isolation under every schedule and any number of threads, fresh-thread safety, with the placement of every piece of state (thread-local vs shared, lazily created attributes) measured behaviourally from the live code on every run and re-proved isolating; isolation under the live placement excludes call-time reads of the shared func-meta name_space (counterexample theorem = known finding). Not expressible: preemption inside one API method or `ctr += 1`, the GIL, numpy threads — the deterministic two-thread scheduler explores switches at cell-evaluation and tracker/context-API granularity only.',
  'C08': 'Proved: outputs of the trimmed (and reloaded) model equal the untrimmed model\'s under every assignment of the inputs incl. buried inputs; frozen cells hold their trim-time value; exact error condition; the trimmed state satisfies the C01 invariant. A second trim, trim on loaded/.xlsx models and writes over inputs that keep a formula are checked between real models only.',
- 'C09': 'Proved: after a failing evaluate the invariant holds and all transient state is restored; retry and dependants fail again with a pycel class, never stale, never a bare assertion; unrelated cones evaluate to denote; repair = fresh model. Iterative mode: wip/transient restoration for every graph; retry of transitive dependants in cyclic graphs is `_partial` (correspondence only). Whole-column/intersection/defined-name readers are oracle-only.',
+ 'C09': 'Proved: after a failing evaluate the invariant holds and all transient state is restored; retry and dependants fail again with a pycel class, never stale, never a bare assertion; unrelated cones evaluate to denote; repair = fresh model. Iterative mode: wip/transient restoration for every graph, and retry of the failing cell and of every dependant that reaches it through formula cells fails again (C09_iter_dependant_fails/_retry). Whole-column/intersection/defined-name readers are oracle-only.',
  'C10': 'Proved for arbitrary numeric kernels: totality under the Finite hypothesis, error propagation left-first, coercion clauses, #DIV/0!, renderings of &, one total order with trichotomy/complements/rank/case-insensitivity/blank neutrality, transitivity on non-blank triples (counterexample with blank). For the concrete float kernels finiteness on moderate operands and IEEE rounding are validated by the exhaustive pool correspondence only.',
- 'C11': 'Proved: column-letter and sheet-quote round trips, print/parse round trip for every address with a sheet name without "!" (partial; counterexample = known finding), notations agree, cells count/membership, intersection/union lattice laws incl. unbounded operands and mixed sheet qualification, offsets wrap at the live limits. R1C1 ranges, AddressMultiAreaRange and defined names by correspondence only.',
- 'C12': 'Proved on the model of the work-list: termination, soundness on consistent files, completeness for a perturbed reachable cell, blame, no silent skip with the code\'s skip rules as explicit exclusions. `C12_failed_justified` is weaker than wished (class justified by some raising formula). Whole-column references and interrupted builds are oracle-only; logical-vs-number and stored "" are known findings.',
+ 'C11': 'Proved: column-letter and sheet-quote round trips, print/parse round trip for every address with a sheet name without "!" (partial; counterexample = known finding), notations agree, cells count/membership, intersection/union lattice laws incl. unbounded operands and mixed sheet qualification, offsets wrap at the live limits. Relative R1C1 ranges, AddressMultiAreaRange and defined names by correspondence only.',
+ 'C12': 'Proved on the model of the work-list: termination, soundness on consistent files, completeness for a perturbed reachable cell, blame, no silent skip with the code\'s skip rules as explicit exclusions. Every cell listed under exceptions/not-implemented is, or transitively reads, a formula that raises that class (C12_failed_blame). Whole-column references and interrupted builds are oracle-only; logical-vs-number and stored "" are known findings.',
  'C13': 'Proved for all shapes and any scalar operation: pointwise lifting under every broadcasting case, explicit failure on incompatible shapes, pointwise lifted functions, exact target shape, trim/repeat/#N/A element law, context stack discipline for nested evaluations, member = element. numpy broadcasting and openpyxl ArrayFormula storage are modelled by hand and validated by the exhaustive shape enumeration.',
  'C14': 'Proved for all lists/arrays: numeric-only, first error, permutation/reshape invariance (under at most one distinct error; counterexample otherwise), additivity, AVERAGE = SUM/COUNT, MIN/MAX, SUBTOTAL against the live dispatch table, SUMPRODUCT. Float rounding beyond dyadic inputs is outside the exact model (tolerant compare for AVERAGE only).',
  'C15': 'Proved: live operator table, satisfaction relation per type, wildcard matcher = declarative definition, selection = exactly the matching positions, …IFS₁ = …IF, criteria commute under any permutation, =x / <>x partition, AVERAGEIFS = SUMIFS/COUNTIFS, totality. Numeric text under numeric criteria is a test-pinned known finding.',
